@@ -1635,7 +1635,9 @@ impl Conv<&InstDeclaration> for ir::Declaration {
                                                 expr_comptime,
                                                 &token.beg,
                                             );
-                                        } else {
+                                        } else if expr_comptime.clock_domain != ClockDomain::None {
+                                            // A constant carries no domain: comparing the
+                                            // other connections with it would accept them all.
                                             clock_domain_table.insert(
                                                 dst_comptime.clock_domain,
                                                 expr_comptime.clone(),
